@@ -260,6 +260,12 @@ def plan(ctx):
         c["tag"] = "random"
         cases.append(c)
     cases.extend(special_cases(ctx.rng, mats))
+    # smooth non-proportional strain paths on one or two points (the all-pairs range search matters here:
+    # on random data every instant is an extremum of some stored component)
+    for i in range(len(mats) if ctx.quick() else 6 * len(mats)):
+        c = dc.curved_case(ctx.rng, mats[i % len(mats)])
+        c["tag"] = "curved"
+        cases.append(c)
     return cases
 
 
